@@ -65,6 +65,22 @@ Theorem C17_exit_examples :
 Proof. exact exit_by_error_and_by_end. Qed.
 Print Assumptions C17_exit_examples.
 
+(* ... and the third kind of exit: return-from / go to a block / tagbody OUTSIDE the with-mutex-lock.  In slip these
+   produce a marker VALUE that the enclosing forms pass up; C17_mutex_free_after_exit covers the step that takes
+   the marker out of a lock frame like any other.  Concretely (both kinds, out of two nested locks and an
+   ignore-errors): each mutex is free right after its frame is left, the block catches the marker, the routine
+   can take both mutexes again *)
+Theorem C17_exit_by_marker : marker_facts false = true /\ marker_facts true = true.
+Proof. exact exit_by_marker. Qed.
+Print Assumptions C17_exit_by_marker.
+
+(* faithful to slip (C07): a return-from that is NOT the last form of with-mutex-lock is dropped, the body carries
+   on; the mutex is released at the end of the body *)
+Theorem C17_marker_dropped :
+  exists sf, run_sched (init ex_dropped) (repeat (0, 0)%nat 11) = Some sf /\ all_finished sf = true /\ mem sf = [5%Z] /\ mus sf = [None].
+Proof. exact marker_dropped. Qed.
+Print Assumptions C17_marker_dropped.
+
 Theorem C17_all_free_at_end : forall p s m o, reach p s -> all_finished s = true -> nth_error (mus s) m = Some o -> o = None.
 Proof. exact all_free_at_end. Qed.
 Print Assumptions C17_all_free_at_end.
